@@ -8,8 +8,11 @@ package main
 import (
 	"bytes"
 	"context"
+	"crypto/sha256"
+	"encoding/json"
 	"errors"
 	"fmt"
+	"io"
 	"math/rand/v2"
 	"net"
 	"net/http"
@@ -264,6 +267,167 @@ func checkFile(run *ev.Run, name string, raw []byte) {
 		sort.Strings(feederIDs)
 		if fmt.Sprint(mapIDs) != fmt.Sprint(feederIDs) {
 			run.Violate("witness_map_and_feeder_list_differ;"+name, "the witness map and the feeder/bastion list do not describe the same logs", -1, map[string]any{"map": mapIDs, "list": feederIDs})
+		}
+	}
+	rekorShards(run, name, cfg)
+}
+
+// recWitness records what a feeder submits; it holds an earlier checkpoint so that the feeder has to ask for a proof.
+type recWitness struct {
+	mu      sync.Mutex
+	latest  []byte
+	updates []string // "logID\x00first line of the checkpoint"
+}
+
+func (w *recWitness) GetLatestCheckpoint(context.Context, string) ([]byte, error) { return w.latest, nil }
+func (w *recWitness) Update(_ context.Context, id string, _ uint64, cp []byte, _ [][]byte) ([]byte, error) {
+	w.mu.Lock()
+	defer w.mu.Unlock()
+	w.updates = append(w.updates, id+"\x00"+strings.SplitN(string(cp), "\n", 2)[0])
+	return cp, nil
+}
+
+// rekorHost plays one Rekor deployment: its log info lists a signed tree head for every shard configured on this host.
+type rekorHost struct {
+	mu      sync.Mutex
+	info    []byte
+	proofs  []string // treeID parameter of every proof request
+	unknown []string // requests for anything else
+}
+
+func (t *rekorHost) RoundTrip(q *http.Request) (*http.Response, error) {
+	t.mu.Lock()
+	defer t.mu.Unlock()
+	body := []byte("{}")
+	code := 200
+	switch strings.TrimSuffix(q.URL.Path, "/") {
+	case "/api/v1/log":
+		body = t.info
+	case "/api/v1/log/proof":
+		t.proofs = append(t.proofs, q.URL.Query().Get("treeID"))
+		body = []byte(`{"hashes":[]}`)
+	default:
+		t.unknown = append(t.unknown, q.URL.String())
+		code = 404
+	}
+	return &http.Response{StatusCode: code, Status: http.StatusText(code), Proto: "HTTP/1.1", ProtoMajor: 1, ProtoMinor: 1, Header: http.Header{"Content-Type": {"application/json"}},
+		Body: io.NopCloser(bytes.NewReader(body)), ContentLength: int64(len(body)), Request: q}, nil
+}
+
+// rekorShards: the shipped Rekor entries of one host differ only in the treeID of their URL. Each entry's real feeder,
+// started one after the other in this process (as Main does), must work from ITS OWN URL: with the shipped origin and
+// URL and a stand-in key (the shipped keys cannot sign), against a host that serves a signed tree head for every
+// configured shard, it must ask for a proof in its own tree and submit the checkpoint of its own origin under its own ID.
+func rekorShards(run *ev.Run, name string, cfg omniwitness.LogConfig) {
+	type shard struct {
+		idx            int
+		origin, treeID string
+		url            string
+		key            *refnote.SignKey
+		id             string
+	}
+	byHost := map[string][]*shard{}
+	var hosts []string
+	for i, l := range cfg.Logs {
+		if l.Feeder != omniwitness.Rekor {
+			continue
+		}
+		pu, err := url.Parse(l.URL)
+		cl, err2 := config.NewLog(l.Origin, l.PublicKey, l.URL)
+		if err != nil || err2 != nil || pu.Query().Get("treeID") == "" {
+			continue // reported by the per-entry pass
+		}
+		var seed [32]byte
+		copy(seed[:], fmt.Sprintf("verif-c17-rekor-%s-%d", name, i))
+		if _, ok := byHost[pu.Host]; !ok {
+			hosts = append(hosts, pu.Host)
+		}
+		byHost[pu.Host] = append(byHost[pu.Host], &shard{idx: i, origin: l.Origin, treeID: pu.Query().Get("treeID"), url: l.URL, key: refnote.NewSignKey(cl.Verifier.Name(), seed), id: cl.ID})
+	}
+	for _, h := range hosts {
+		shards := byHost[h]
+		type inactive struct {
+			SignedTreeHead string `json:"signedTreeHead"`
+			TreeID         string `json:"treeID"`
+			TreeSize       int64  `json:"treeSize"`
+		}
+		info := struct {
+			SignedTreeHead string     `json:"signedTreeHead"`
+			RootHash       string     `json:"rootHash"`
+			TreeID         string     `json:"treeID"`
+			TreeSize       int64      `json:"treeSize"`
+			InactiveShards []inactive `json:"inactiveShards"`
+		}{}
+		sth := func(sh *shard, size uint64) []byte {
+			root := sha256.Sum256([]byte(fmt.Sprintf("%s/%d", sh.origin, size)))
+			text := refnote.Body(sh.origin, size, root[:])
+			return refnote.Assemble(text, sh.key.SigLine(text))
+		}
+		// the LAST configured shard is the active one, the others are inactive (as on the real deployment)
+		for k, sh := range shards {
+			if k == len(shards)-1 {
+				info.SignedTreeHead, info.TreeID, info.TreeSize = string(sth(sh, 20)), sh.treeID, 20
+			} else {
+				info.InactiveShards = append(info.InactiveShards, inactive{string(sth(sh, 20)), sh.treeID, 20})
+			}
+		}
+		ib, _ := json.Marshal(info)
+		for _, sh := range shards {
+			ent := fmt.Sprintf("%s#%d(%s)", name, sh.idx, sh.origin)
+			v, err := note.NewVerifier(sh.key.Vkey())
+			if err != nil {
+				run.Inconclusive("rekor shard unit: cannot build a stand-in verifier for " + ent + ": " + err.Error())
+				return
+			}
+			tr := &rekorHost{info: ib}
+			w := &recWitness{latest: sth(sh, 10)}
+			var ferr error
+			var panicked any
+			done := make(chan struct{})
+			go func() {
+				defer close(done)
+				defer func() { panicked = recover() }()
+				ctx, cancel := context.WithTimeout(context.Background(), 10*time.Second)
+				defer cancel()
+				ferr = omniwitness.Rekor.FeedFunc()(ctx, config.Log{ID: sh.id, Origin: sh.origin, URL: sh.url, Verifier: v}, w, &http.Client{Transport: tr}, 0)
+			}()
+			select {
+			case <-done:
+			case <-time.After(40 * time.Second):
+				run.Inconclusive("watchdog: rekor shard feeder for " + ent + " did not return")
+				return
+			}
+			run.Count("evaluations")
+			run.Count("rekor_shard_feeds")
+			run.Distinct("nontrivial", "rekor-shard/"+ent)
+			d := map[string]any{"entry": ent, "url": sh.url, "tree_id": sh.treeID, "host_shards": len(shards), "feeder_error": fmt.Sprint(ferr), "proof_tree_ids": tr.proofs, "updates": w.updates, "other_requests": tr.unknown}
+			want := sh.id + "\x00" + sh.origin
+			switch {
+			case panicked != nil:
+				run.Violate("feeder_panics;"+ent, fmt.Sprintf("%s: the Rekor feeder panics: %v", ent, panicked), -1, d)
+			case len(tr.unknown) > 0:
+				run.Inconclusive(fmt.Sprintf("rekor shard unit: the feeder for %s asked for %s, which the stand-in host does not play", ent, tr.unknown[0]))
+				return
+			default:
+				for _, u := range w.updates {
+					if u != want {
+						run.Violate("rekor_feeder_submits_other_shard;"+ent, fmt.Sprintf("%s: the feeder configured with treeID %s submitted %q", ent, sh.treeID, strings.ReplaceAll(u, "\x00", " / ")), -1, d)
+					}
+				}
+				for _, tID := range tr.proofs {
+					if tID != sh.treeID {
+						run.Violate("rekor_feeder_asks_other_tree;"+ent, fmt.Sprintf("%s: configured treeID %s, proof requested in tree %s", ent, sh.treeID, tID), -1, d)
+					}
+				}
+				if len(w.updates) == 0 && ferr != nil && (errors.Is(ferr, context.DeadlineExceeded) || strings.Contains(ferr.Error(), "deadline exceeded")) {
+					run.Inconclusive("watchdog: rekor shard feeder for " + ent + " ran out of time: " + ferr.Error())
+					return
+				}
+				if len(w.updates) == 0 {
+					run.Violate("rekor_feeder_does_not_follow_its_shard;"+ent, fmt.Sprintf("%s: the host served a signed tree head for treeID %s (one of %d shards on %s), the feeder submitted nothing: %v", ent, sh.treeID, len(shards), h, ferr), -1, d)
+				}
+			}
+			run.Sample(map[string]any{"entry": ent, "rekor_shard": sh.treeID, "proof_tree_ids": tr.proofs, "submitted": len(w.updates), "result": fmt.Sprint(ferr)})
 		}
 	}
 }
